@@ -240,25 +240,25 @@ func c17GenEdits(r *rand.Rand, n int) []c17Edit {
 func c17Run(c *Ctx) {
 	r := c.Rng
 	kinds := []string{"Secret", "ConfigMap"}
-	for i := 0; i < c.N(1200); i++ {
+	for i := 0; i < c.N(2500); i++ {
 		c.Tick()
 		kind := pick(r, kinds)
 		cs := c17Manifest{Kind: kind, Extra: c17GenExtra(r, kind), Text: c17GenItems(r, c17Keys, 5, false), Bin: c17GenBins(r, 4),
 			EmptySec: r.Intn(6) == 0, Via: pick(r, []string{"bytes", "bytes", "reader", "file"}), Edits: c17GenEdits(r, r.Intn(9))}
 		c.Do("manifest", cs)
 	}
-	for i := 0; i < c.N(500); i++ {
+	for i := 0; i < c.N(1200); i++ {
 		c.Tick()
 		c.Do("embedded", c17GenEmb(r))
 	}
 	for _, y := range c17MalformedFixed {
 		c.Do("malformed", c17Malformed{Yaml: y})
 	}
-	for i := 0; i < c.N(600); i++ {
+	for i := 0; i < c.N(1000); i++ {
 		c.Tick()
 		c.Do("malformed", c17Malformed{Yaml: c17GenMalformed(r)})
 	}
-	for i := 0; i < c.N(1500); i++ {
+	for i := 0; i < c.N(2500); i++ {
 		c.Tick()
 		c.Do("b64", c17GenB64(r))
 	}
@@ -532,7 +532,7 @@ func c17EvalManifest(c *Ctx, raw []byte) {
 	if len(cs.Text)+len(cs.Bin) > 0 {
 		c.Nontrivial()
 	}
-	c.Dist("kind:" + cs.Kind)
+	c.Dist("manifest-kind:" + cs.Kind)
 	c.Dist(fmt.Sprintf("text-items:%d", len(cs.Text)))
 	c.Dist(fmt.Sprintf("bin-items:%d", len(cs.Bin)))
 	c.Dist("via:" + cs.Via)
@@ -720,6 +720,13 @@ func c17EvalMalformed(c *Ctx, raw []byte) {
 		c.Dist("malformed:yaml-error")
 		c.Direct("yaml-error-is-error", err != nil, nil)
 		return
+	}
+	// unsupported kinds (and a missing / non-string kind) yield errors
+	var plain map[string]any
+	_ = yaml.Unmarshal([]byte(cs.Yaml), &plain)
+	if ks, ok := plain["kind"].(string); !ok || (ks != "Secret" && ks != "ConfigMap") {
+		c.Dist("malformed:bad-kind")
+		c.Direct("unsupported-or-missing-kind-is-error", err != nil, plain["kind"])
 	}
 	mo := c.Model("load", map[string]any{"doc": w})
 	if err != nil {
